@@ -80,6 +80,9 @@ type Translator struct {
 	defCount       map[string]int
 	noPrune        bool
 	factDefs       map[int]string
+	paramHolders   []paramHolder
+	pendingEpochAlloc int
+	callArgs       []string
 	reachConsts    map[string]bool
 	autoRecvNonNil bool
 	safeOnly       bool
@@ -701,6 +704,7 @@ func (fc *fctx) enterBlock(b *ssa.BasicBlock) bool {
 	fc.checkAutoFrame(b, ord, mods, "entry", b.Instrs[0].Pos())
 	preState := tr.cur.clone()
 	if all {
+		tr.callArgs = nil
 		tr.havocAll()
 	} else {
 		for _, c := range mods {
@@ -734,12 +738,38 @@ func (tr *Translator) havocAll() {
 	for _, a := range tr.protected {
 		prot = append(prot, eq("(obase a)", a))
 	}
+	// pointer parameters of the function under verification: the objects they designate behave like holders
+	// (TREE): a callee that is not handed the pointer itself does not change their pointer / slice / map cells
+	type holder struct {
+		addr string
+		t    types.Type
+	}
+	var paramHolders []holder
+	for _, ph := range tr.paramHolders {
+		passed := false
+		for _, a := range tr.callArgs {
+			if a == ph.addr {
+				passed = true
+			}
+		}
+		if !passed {
+			paramHolders = append(paramHolders, holder{ph.addr, ph.t})
+			protPtr = append(protPtr, and(not(eq(ph.addr, "0")), eq("(obase a)", "(obase "+ph.addr+")")))
+		}
+	}
 	// TREE assumption: the holder objects a local value points to (SchemaOrBool, SchemaOrArray, ...) keep their
 	// pointer fields across a call that received only sub-values of the local (Go values of the model are trees)
 	var protMaps []string
+	var holders []holder
 	for _, a := range tr.protected {
-		t, ok := tr.protectedTypes[a]
-		if !ok || os.Getenv("GOVC_NOTREE") != "" {
+		if t, ok := tr.protectedTypes[a]; ok {
+			holders = append(holders, holder{a, t})
+		}
+	}
+	holders = append(holders, paramHolders...)
+	for _, h := range holders {
+		a, t := h.addr, h.t
+		if os.Getenv("GOVC_NOTREE") != "" {
 			continue
 		}
 		for _, l := range tr.u.leaves(t) {
@@ -769,7 +799,7 @@ func (tr *Translator) havocAll() {
 	for _, k := range tr.cur.keys() {
 		touchedSet[k] = true
 	}
-	if len(prot) > 0 {
+	if len(prot) > 0 || len(protPtr) > 0 {
 		// partitions that were only read so far may hold cells of protected locals / holders too
 		for c := range tr.u.accessed {
 			if strings.Contains(c, "$") {
@@ -812,7 +842,7 @@ func (tr *Translator) havocAll() {
 		n := tr.havocComp(c)
 		k := kindOfComp(c)
 		// local variables whose address never leaves the function keep their contents across any call
-		if len(prot) > 0 && strings.Contains(c, "$") {
+		if (len(prot) > 0 || len(protPtr) > 0) && strings.Contains(c, "$") {
 			cond := or(prot...)
 			if (k == "MPtr" || k == "MSlice") && len(protPtr) > 0 {
 				cond = or(append([]string{cond}, protPtr...)...)
@@ -826,6 +856,33 @@ func (tr *Translator) havocAll() {
 	}
 	n := tr.havocComp("ALLOC")
 	tr.fact("(>= " + n + " " + oldAlloc + ")")
+	tr.u.epochAlloc[tr.epoch] = n
+	// heap well-formedness is an invariant of every Go execution: cells of allocated objects reference allocated objects
+	for _, c := range touched {
+		if cn, ok := tr.cur.M[c]; ok {
+			tr.assumeWF(c, cn, n)
+		}
+	}
+}
+
+// assumeWF: cells of allocated objects reference allocated objects (pointer and slice partitions).
+func (tr *Translator) assumeWF(c, cn, alloc string) {
+	if !strings.Contains(c, "$") {
+		return
+	}
+	if f := wfFormula(kindOfComp(c), cn, alloc); f != "" {
+		tr.factFor(cn, f)
+	}
+}
+
+func wfFormula(kind, cn, alloc string) string {
+	switch kind {
+	case "MPtr":
+		return fmt.Sprintf("(forall ((a Int)) (! (=> (< (obase a) %s) (and (>= (select %s a) 0) (< (obase (select %s a)) %s))) :pattern ((select %s a))))", alloc, cn, cn, alloc, cn)
+	case "MSlice":
+		return fmt.Sprintf("(forall ((a Int)) (! (=> (< (obase a) %s) (let ((s (select %s a))) (and (>= (sl_arr s) 0) (< (obase (sl_arr s)) %s) (>= (sl_off s) 0) (>= (sl_len s) 0) (>= (sl_cap s) (sl_len s)) (=> (= (sl_arr s) 0) (= (sl_cap s) 0))))) :pattern ((select %s a))))", alloc, cn, alloc, cn)
+	}
+	return ""
 }
 
 // leaks reports whether the address of a local allocation may become known to code outside the
@@ -922,6 +979,28 @@ func (fc *fctx) envAt(st *State) *Env {
 
 // loop variable bindings for invariants of loop `ord` given values of the phis.
 func (fc *fctx) bindLoopVars(env *Env, b *ssa.BasicBlock, ord int, phiVal func(*ssa.Phi) *Val) {
+	// entry values of the parameters are always available as <name>0
+	for k, v := range fc.params {
+		env.vars[k+"0"] = v
+	}
+	// a source variable that was reassigned before the loop is a named phi in a dominating block: inside
+	// loop invariants its name denotes that current value
+	for _, d := range fc.fn.DomPreorder() {
+		if d == b || !d.Dominates(b) {
+			continue
+		}
+		for _, instr := range d.Instrs {
+			phi, ok := instr.(*ssa.Phi)
+			if !ok {
+				break
+			}
+			if phi.Comment != "" && phi.Comment != "rangeindex" {
+				if vs, ok := fc.vals[phi]; ok && len(vs) == 1 {
+					env.vars[phi.Comment] = vs[0]
+				}
+			}
+		}
+	}
 	for _, instr := range b.Instrs {
 		phi, ok := instr.(*ssa.Phi)
 		if !ok {
@@ -1288,7 +1367,7 @@ func (fc *fctx) frameBody(cn, now, a string) (string, bool) {
 	}
 	var preds []string
 	its := by[cn]
-	if strings.Contains(cn, "$") {
+	if strings.Contains(cn, "$") && !machineryPartition(cn) {
 		its = append(append([]assignItem{}, its...), by["*"]...)
 	}
 	for _, it := range its {
@@ -1349,4 +1428,10 @@ func (tr *Translator) bumpEpochRegion(regions []string) {
 	tr.epoch++
 	tr.cur.Epoch = tr.epoch
 	tr.u.epochs[tr.epoch] = epochRel{parent: prev, regions: regions, allocPre: tr.cur.get(tr.u, "ALLOC")}
+	tr.pendingEpochAlloc = tr.epoch
+}
+
+type paramHolder struct {
+	addr string
+	t    types.Type
 }
